@@ -130,10 +130,29 @@ type subject struct {
 	groups                 [][]string
 }
 
-var subjects = map[string]subject{
-	"a": {"alice@example.com", "at-alice-1", "rt-alice-1", [][]string{{"eng", "ops"}, {"ops", "eng"}}},
-	"b": {"bob@example.com", "at-bob-1", "rt-bob-1", [][]string{{"eng", "ops", "sec"}, {"sec", "eng", "ops"}}},
+// subjectSets: how the two subjects "a" and "b" of a behaviour differ. They always differ in the
+// tokens; in the user, in the group set, or in both - so that a key that drops either part of the
+// subject merges calls that must stay apart.
+var subjectSets = []map[string]subject{
+	{ // different user, different group set
+		"a": {"alice@example.com", "at-alice-1", "rt-alice-1", [][]string{{"eng", "ops"}, {"ops", "eng"}}},
+		"b": {"bob@example.com", "at-bob-1", "rt-bob-1", [][]string{{"eng", "ops", "sec"}, {"sec", "eng", "ops"}}},
+	},
+	{ // same user, different group set
+		"a": {"alice@example.com", "at-alice-1", "rt-alice-1", [][]string{{"eng", "ops"}, {"ops", "eng"}}},
+		"b": {"alice@example.com", "at-alice-2", "rt-alice-2", [][]string{{"admins"}, {"admins"}}},
+	},
+	{ // different user, same group set
+		"a": {"alice@example.com", "at-alice-1", "rt-alice-1", [][]string{{"eng", "ops"}, {"ops", "eng"}}},
+		"b": {"bob@example.com", "at-bob-1", "rt-bob-1", [][]string{{"ops", "eng"}, {"eng", "ops"}}},
+	},
+	{ // same user, group sets one a prefix of the other
+		"a": {"alice@example.com", "at-alice-1", "rt-alice-1", [][]string{{"eng"}, {"eng"}}},
+		"b": {"alice@example.com", "at-alice-2", "rt-alice-2", [][]string{{"eng", "ops"}, {"ops", "eng"}}},
+	},
 }
+
+var subjects = subjectSets[0]
 
 func groupsOf(s subject, variant int) []string {
 	g := s.groups[variant%len(s.groups)]
@@ -214,12 +233,13 @@ func (p *proxyInner) GetSignOutURL(*url.URL) *url.URL        { return &url.URL{}
 type proxyTarget struct {
 	p       *pprov.SingleFlightProvider
 	methods map[string]string // model endpoint -> method
+	subj    map[string]subject
 }
 
 func (t *proxyTarget) name() string             { return "proxy:" + t.methods["V"] + "," + t.methods["R"] }
 func (t *proxyTarget) snapshot() map[string]int { return t.p.VerifGroup().VerifSnapshot() }
 func (t *proxyTarget) call(ep, subj string, variant int) result {
-	s := subjects[subj]
+	s := t.subj[subj]
 	switch t.methods[ep] {
 	case "UserGroups":
 		g, err := t.p.UserGroups(s.email, groupsOf(s, variant), s.access)
@@ -294,6 +314,7 @@ func (p *authInner) RefreshAccessToken(rt string) (string, time.Duration, error)
 type authTarget struct {
 	p       *aprov.SingleFlightProvider
 	methods map[string]string
+	subj    map[string]subject
 }
 
 func (t *authTarget) name() string             { return "auth:" + t.methods["V"] + "," + t.methods["R"] }
@@ -304,7 +325,7 @@ func failID(err error) int {
 	return id
 }
 func (t *authTarget) call(ep, subj string, variant int) result {
-	s := subjects[subj]
+	s := t.subj[subj]
 	switch t.methods[ep] {
 	case "ValidateSessionState":
 		ok := t.p.ValidateSessionState(sessionOf(s))
@@ -377,7 +398,7 @@ func methodName(tname, ep string) string {
 	return parts[0] + "." + ms[1]
 }
 
-func newTarget(name string, r *rig) target {
+func newTarget(name string, r *rig, sset int) target {
 	if name == "group" {
 		return &groupTarget{g: &singleflight.Group{}, r: r}
 	}
@@ -385,17 +406,18 @@ func newTarget(name string, r *rig) target {
 	ms := strings.Split(parts[1], ",")
 	methods := map[string]string{"V": ms[0], "R": ms[1]}
 	if parts[0] == "proxy" {
-		return &proxyTarget{p: pprov.NewSingleFlightProvider(&proxyInner{r: r, ProviderData: &pprov.ProviderData{}}, nil), methods: methods}
+		return &proxyTarget{p: pprov.NewSingleFlightProvider(&proxyInner{r: r, ProviderData: &pprov.ProviderData{}}, nil), methods: methods, subj: subjectSets[sset%len(subjectSets)]}
 	}
-	return &authTarget{p: aprov.NewSingleFlightProvider(&authInner{r: r, ProviderData: &aprov.ProviderData{}}), methods: methods}
+	return &authTarget{p: aprov.NewSingleFlightProvider(&authInner{r: r, ProviderData: &aprov.ProviderData{}}), methods: methods, subj: subjectSets[sset%len(subjectSets)]}
 }
 
 // Replay runs one behaviour against one target.
 func Replay(base int, tname string, evs []Ev, variantSeed int64) ([]Line, error) {
 	r := newRig()
-	t := newTarget(tname, r)
 	rnd := rand.New(rand.NewSource(variantSeed))
-	lines := []Line{{Ev: "reset", Case: base, Conc: map[string]interface{}{"target": tname}}}
+	sset := rnd.Intn(len(subjectSets))
+	t := newTarget(tname, r, sset)
+	lines := []Line{{Ev: "reset", Case: base, Conc: map[string]interface{}{"target": tname, "subject_set": sset}}}
 	results := map[int]chan result{} // caller -> result
 	got := map[int]result{}
 	execOf := map[string]int{} // model key -> running exec id
@@ -581,7 +603,7 @@ func RunReplay(in, out string, seed int64, sample, perBeh, workers, only int, on
 					firstErr.Store(fmt.Errorf("behaviour %d on %s: %v", jobs[j].beh, jobs[j].target, err))
 					return
 				}
-				ls[0].Conc = map[string]interface{}{"behaviour": jobs[j].beh, "target": jobs[j].target, "events": behs[jobs[j].beh]}
+				ls[0].Conc = map[string]interface{}{"behaviour": jobs[j].beh, "target": jobs[j].target, "events": behs[jobs[j].beh], "vseed": seed + int64(j)}
 				res[j] = ls
 			}
 		}(wk)
